@@ -16,6 +16,8 @@ import os
 import re
 import shutil
 import subprocess
+import fcntl
+import random
 import sys
 import tempfile
 import time
@@ -73,6 +75,41 @@ class TLCResult:
             res.append(rest[:stop.start()] if stop else rest)
         return res
 
+
+
+class _Slot:
+    """Machine-wide bound on the number of concurrently running heavy child processes (TLC JVMs, drivers).
+    Several checks may run at the same time (development, seeded-change sweeps); without a bound fifty JVMs
+    of several gigabytes each were seen at once and the kernel's OOM killer decided the outcome.  A check
+    that runs alone is never delayed: it does not start more children at a time than there are slots."""
+
+    def __init__(self, kind, n):
+        self.kind, self.n, self.f = kind, n, None
+
+    def __enter__(self):
+        if self.n <= 0:
+            return self
+        d = os.path.join(tempfile.gettempdir(), "verif-slots")
+        os.makedirs(d, exist_ok=True)
+        while True:
+            for k in range(self.n):
+                f = open(os.path.join(d, "%s-%d" % (self.kind, k)), "w")
+                try:
+                    fcntl.flock(f, fcntl.LOCK_EX | fcntl.LOCK_NB)
+                    self.f = f
+                    return self
+                except OSError:
+                    f.close()
+            time.sleep(0.3 + random.random())
+
+    def __exit__(self, *a):
+        if self.f:
+            self.f.close()
+            self.f = None
+
+
+TLC_SLOTS = int(os.environ.get("VERIF_TLC_SLOTS", "6"))
+DRIVER_SLOTS = int(os.environ.get("VERIF_DRIVER_SLOTS", "8"))
 
 class Ctx:
     def __init__(self, pid, tier, seed):
@@ -136,8 +173,9 @@ class Ctx:
         if env:
             e.update(env)
         try:
-            p = subprocess.run([binpath] + [str(a) for a in args], cwd=self.scratch, env=e,
-                               stdout=subprocess.PIPE, stderr=subprocess.STDOUT, text=True, timeout=timeout)
+            with _Slot("drv", DRIVER_SLOTS):
+                p = subprocess.run([binpath] + [str(a) for a in args], cwd=self.scratch, env=e,
+                                   stdout=subprocess.PIPE, stderr=subprocess.STDOUT, text=True, timeout=timeout)
         except subprocess.TimeoutExpired as ex:
             raise Undecided("driver %s timed out after %ss: %s" % (os.path.basename(binpath), timeout, (ex.stdout or "")[-2000:]))
         if p.returncode not in ok_codes:
@@ -175,8 +213,9 @@ class Ctx:
         w = workers or NCPU
         args = ["timeout", str(timeout), "tlc", "-workers", str(w), "-metadir", os.path.join(d, "meta"),
                 "-config", name + ".cfg"] + (extra or []) + [module + ".tla"]
-        t = time.time()
-        p = subprocess.run(args, cwd=d, env=env, stdout=subprocess.PIPE, stderr=subprocess.STDOUT, text=True)
+        with _Slot("tlc", TLC_SLOTS):
+            t = time.time()
+            p = subprocess.run(args, cwd=d, env=env, stdout=subprocess.PIPE, stderr=subprocess.STDOUT, text=True)
         res = TLCResult(p.returncode, p.stdout, time.time() - t)
         res.dir = d
         if p.returncode == 124:
